@@ -569,48 +569,40 @@ Proof.
   - inversion H; subst. apply andb_true_iff. split; lia.
 Qed.
 
-(* what the code treats as the log file is the property's log file as soon as a log file was asked for *)
-Lemma ignore_is_foreign_given : forall v e, lg_given v = true -> ignore_patterns v e = foreign v e.
+(* what the code treats as foreign is what the property calls foreign: the input directory and the very path
+   given with --logfile are exempted, nothing else - whatever the current directory is *)
+Lemma ignore_is_foreign : forall v e, ignore_patterns v e = foreign v e.
 Proof.
-  intros v e G. unfold ignore_patterns, foreign, is_logfile, abspath_logfile. rewrite G. cbn [andb].
-  destruct (en_input e && en_isdir e); destruct (apath_eqb (entry_path e) (lg_path v)); reflexivity.
+  intros v e. unfold ignore_patterns, foreign, is_logfile.
+  destruct (en_input e && en_isdir e); destruct (lg_given v && apath_eqb (entry_path e) (lg_path v)); reflexivity.
 Qed.
 
-(* without a log file the code still exempts the entry equal to the current directory *)
-Lemma ignore_is_foreign_nolog : forall v e, lg_given v = false ->
-  ignore_patterns v e = foreign v e && negb (apath_eqb (entry_path e) (cwd v)).
-Proof.
-  intros v e G. unfold ignore_patterns, foreign, is_logfile, abspath_logfile. rewrite G. cbn [andb].
-  destruct (en_input e && en_isdir e); destruct (apath_eqb (entry_path e) (cwd v)); reflexivity.
-Qed.
-
-Lemma ignore_is_foreign : forall v entries e,
-  cwd_is_entry v entries = false -> In e entries -> ignore_patterns v e = foreign v e.
-Proof.
-  intros v entries e C He. unfold cwd_is_entry in C. destruct (lg_given v) eqn:G.
-  - apply ignore_is_foreign_given. exact G.
-  - cbn [negb andb] in C. rewrite (ignore_is_foreign_nolog v e G).
-    destruct (apath_eqb (entry_path e) (cwd v)) eqn:X; [|apply andb_true_r].
-    exfalso. assert (T : existsb (fun e0 => apath_eqb (entry_path e0) (cwd v)) entries = true).
-    { apply existsb_exists. exists e. split; assumption. }
-    rewrite T in C. discriminate.
-Qed.
-
-(* the exemption is exact: an entry escapes the emptiness test iff it is the input directory or its
-   absolute path is the absolute path of config.logfile *)
+(* the exemption is exact: an entry escapes the emptiness test iff it is the input directory or a log file
+   was asked for and its absolute path is the absolute path of config.logfile *)
 Lemma ignore_exact : forall v e,
   ignore_patterns v e = false <->
-  (en_input e = true /\ en_isdir e = true) \/ entry_path e = abspath_logfile v.
+  (en_input e = true /\ en_isdir e = true) \/ (lg_given v = true /\ entry_path e = lg_path v).
 Proof.
   intros v e. unfold ignore_patterns. split.
   - destruct (en_input e && en_isdir e) eqn:I.
     + intros _. left. apply andb_true_iff. exact I.
-    + destruct (apath_eqb (entry_path e) (abspath_logfile v)) eqn:X; [|discriminate].
-      intros _. right. apply apath_eqb_eq. exact X.
-  - intros [[A B]|A].
+    + destruct (lg_given v && apath_eqb (entry_path e) (lg_path v)) eqn:X; [|discriminate].
+      intros _. right. apply andb_true_iff in X. destruct X as [G X]. split; [exact G|].
+      apply apath_eqb_eq. exact X.
+  - intros [[A B]|[G A]].
     + rewrite A, B. reflexivity.
     + destruct (en_input e && en_isdir e); [reflexivity|].
-      apply apath_eqb_eq in A. rewrite A. reflexivity.
+      apply apath_eqb_eq in A. rewrite G, A. reflexivity.
+Qed.
+
+(* without --logfile nothing but the input directory is exempted: wherever the current directory is *)
+Lemma nolog_foreign : forall v e,
+  lg_given v = false ->
+  foreign v e = negb (en_input e && en_isdir e) /\ ignore_patterns v e = negb (en_input e && en_isdir e).
+Proof.
+  intros v e G. split.
+  - unfold foreign, is_logfile. rewrite G. cbn [andb]. rewrite orb_false_r. reflexivity.
+  - unfold ignore_patterns. rewrite G. cbn [andb]. destruct (en_input e && en_isdir e); reflexivity.
 Qed.
 
 (* a log file that does not lie directly in the output directory exempts nothing: whatever the names *)
@@ -623,7 +615,7 @@ Proof.
   { unfold apath_eqb, entry_path. cbn [p_dir p_base]. apply andb_false_iff. left. lia. }
   split.
   - unfold foreign, is_logfile. rewrite G, X. cbn [andb]. rewrite orb_false_r. reflexivity.
-  - unfold ignore_patterns, abspath_logfile. rewrite G, X. destruct (en_input e && en_isdir e); reflexivity.
+  - unfold ignore_patterns. rewrite G, X. destruct (en_input e && en_isdir e); reflexivity.
 Qed.
 
 Lemma filter_all : forall A (f : A -> bool) l, forallb f l = true -> filter f l = l.
@@ -647,41 +639,69 @@ Qed.
 Lemma filter_ext_eq : forall A (f g : A -> bool) l, (forall x, f x = g x) -> filter f l = filter g l.
 Proof. intros A f g l H. induction l as [|x xs IH]; [reflexivity|]. cbn. rewrite H, IH. reflexivity. Qed.
 
-Lemma dir_guard_parts : forall v dmeta entries, dir_guard v dmeta entries = true ->
-  dmeta = false /\ forallb en_visible entries = true /\ cwd_is_entry v entries = false.
-Proof.
-  intros v dmeta entries G. unfold dir_guard in G.
-  apply andb_true_iff in G. destruct G as [G Gc]. apply andb_true_iff in G. destruct G as [Gm Gv].
-  destruct dmeta; [discriminate|]. split; [reflexivity|]. split; [exact Gv|].
-  apply negb_true_iff. exact Gc.
-Qed.
-
-(* refusal: fresh input, existing directory with a foreign entry that glob can see *)
+(* refusal: fresh input, existing directory with a foreign entry - hidden or not, whatever the directory is
+   called, whatever the current directory is *)
 Lemma refuse_fresh : forall v dmeta entries,
-  dir_guard v dmeta entries = true -> existsb (foreign v) entries = true ->
+  existsb (foreign v) entries = true ->
   prepare_output_directory v 1 false dmeta entries = (Err E_Input, 1, entries).
 Proof.
-  intros v dmeta entries G F. destruct (dir_guard_parts _ _ _ G) as [Gm [Gv Gc]]. subst dmeta.
-  unfold prepare_output_directory, glob_all. cbn [Z.eqb negb andb].
-  rewrite (filter_all _ _ _ Gv).
-  rewrite (filter_ext_in _ _ entries (fun e He => ignore_is_foreign v entries e Gc He)).
+  intros v dmeta entries F.
+  unfold prepare_output_directory, list_dir. cbn [Z.eqb negb andb].
+  rewrite (filter_ext_eq _ _ (foreign v) entries (ignore_is_foreign v)).
   pose proof (existsb_filter_nonempty _ _ _ F) as NE.
   destruct (filter (foreign v) entries); [contradiction|]. reflexivity.
 Qed.
 
 (* the clause the log-file exemption must not weaken: the log file lives elsewhere (not directly in the
    output directory) and some entry is not the input directory - refused, whatever the entry is called *)
-Lemma refuse_log_elsewhere : forall v entries,
+Lemma refuse_log_elsewhere : forall v dmeta entries,
   lg_given v = true -> p_dir (lg_path v) <> 0 ->
-  forallb en_visible entries = true ->
   existsb (fun e => negb (en_input e && en_isdir e)) entries = true ->
-  prepare_output_directory v 1 false false entries = (Err E_Input, 1, entries).
+  prepare_output_directory v 1 false dmeta entries = (Err E_Input, 1, entries).
 Proof.
-  intros v entries G D V F. apply refuse_fresh.
-  - unfold dir_guard, cwd_is_entry. rewrite V, G. reflexivity.
-  - apply existsb_exists in F. destruct F as [e [He Fe]]. apply existsb_exists. exists e. split; [exact He|].
-    rewrite (proj1 (log_elsewhere_foreign v e G D)). exact Fe.
+  intros v dmeta entries G D F. apply refuse_fresh.
+  apply existsb_exists in F. destruct F as [e [He Fe]]. apply existsb_exists. exists e. split; [exact He|].
+  rewrite (proj1 (log_elsewhere_foreign v e G D)). exact Fe.
 Qed.
+
+(* the three repaired classes (formerly C20_refuse_*_refuted), now positive: (a) a foreign entry whose name
+   starts with a dot ... *)
+Lemma refuse_hidden : forall v dmeta entries e,
+  In e entries -> en_visible e = false -> foreign v e = true ->
+  prepare_output_directory v 1 false dmeta entries = (Err E_Input, 1, entries).
+Proof.
+  intros v dmeta entries e He _ Fe. apply refuse_fresh. apply existsb_exists. exists e. split; assumption.
+Qed.
+
+(* ... (b) a directory whose name contains glob metacharacters: refused like any other on a fresh run, and in
+   every mode the outcome is that of the same directory under a plain name (in reuse mode the stale region
+   files are removed) ... *)
+Lemma globname_irrelevant : forall v kind reuse dmeta entries,
+  prepare_output_directory v kind reuse dmeta entries = prepare_output_directory v kind reuse false entries.
+Proof. intros. reflexivity. Qed.
+
+Lemma refuse_globname : forall v entries,
+  existsb (foreign v) entries = true ->
+  prepare_output_directory v 1 false true entries = (Err E_Input, 1, entries).
+Proof. intros v entries F. apply refuse_fresh. exact F. Qed.
+
+(* ... (c) no --logfile: every entry other than the input directory makes the run refuse, also the entry
+   that is the current directory *)
+Lemma refuse_nolog : forall v dmeta entries,
+  lg_given v = false ->
+  existsb (fun e => negb (en_input e && en_isdir e)) entries = true ->
+  prepare_output_directory v 1 false dmeta entries = (Err E_Input, 1, entries).
+Proof.
+  intros v dmeta entries G F. apply refuse_fresh.
+  apply existsb_exists in F. destruct F as [e [He Fe]]. apply existsb_exists. exists e. split; [exact He|].
+  rewrite (proj1 (nolog_foreign v e G)). exact Fe.
+Qed.
+
+(* the current directory plays no part at all *)
+Lemma cwd_irrelevant : forall g lp c1 c2 kind reuse dmeta entries,
+  prepare_output_directory (mkEnv g lp c1) kind reuse dmeta entries =
+  prepare_output_directory (mkEnv g lp c2) kind reuse dmeta entries.
+Proof. intros. reflexivity. Qed.
 
 Lemma remove_all_subset : forall targets entries r es,
   remove_all targets entries = (r, es) -> forall e, In e es -> In e entries.
@@ -759,7 +779,7 @@ Proof.
   - inversion H; subst. split; [reflexivity|]. split.
     + apply (remove_all_subset _ _ _ _ R).
     + intros e He Hnr. apply (remove_all_keeps _ _ _ _ R e He).
-      intros t Ht Eid. unfold glob_region in Ht. destruct dmeta; [contradiction|].
+      intros t Ht Eid. unfold glob_region in Ht.
       apply filter_In in Ht. destruct Ht as [Ht1 Ht2].
       assert (t = e) by (apply (NoDup_ids_eq entries); assumption). subst t.
       rewrite Ht2 in Hnr. discriminate.
@@ -767,26 +787,22 @@ Qed.
 
 (* accepted directory (reuse mode, or nothing foreign) without a directory named like a region file:
    exactly the visible *.region???.gbk entries are removed *)
-Lemma prepare_accept : forall v reuse entries,
+Lemma prepare_accept : forall v reuse dmeta entries,
   NoDup (ids entries) ->
   forallb en_visible entries = true ->
   (reuse = true \/ existsb (foreign v) entries = false) ->
   forallb (fun e => negb (en_region e && en_isdir e)) entries = true ->
-  prepare_output_directory v 1 reuse false entries =
+  prepare_output_directory v 1 reuse dmeta entries =
   (Ok tt, 1, filter (fun e => negb (en_region e)) entries).
 Proof.
-  intros v reuse entries N V A D. unfold prepare_output_directory, glob_all, glob_region.
+  intros v reuse dmeta entries N V A D. unfold prepare_output_directory, list_dir, glob_region.
   change (1 =? 0) with false. change (1 =? 1) with true. cbn [negb]. cbv iota.
-  rewrite (filter_all _ _ _ V).
   assert (C : negb reuse && negb (match filter (ignore_patterns v) entries with [] => true | _ => false end) = false).
   { destruct A as [A|A]; [subst reuse; reflexivity|].
     assert (E : filter (ignore_patterns v) entries = []).
     { apply existsb_filter_empty. destruct (existsb (ignore_patterns v) entries) eqn:X; [|reflexivity].
       apply existsb_exists in X. destruct X as [e [He Ie]].
-      assert (Fe : foreign v e = true).
-      { destruct (lg_given v) eqn:G.
-        - rewrite <- (ignore_is_foreign_given v e G). exact Ie.
-        - rewrite (ignore_is_foreign_nolog v e G) in Ie. apply andb_true_iff in Ie. tauto. }
+      assert (Fe : foreign v e = true) by (rewrite <- (ignore_is_foreign v e); exact Ie).
       assert (T : existsb (foreign v) entries = true) by (apply existsb_exists; exists e; split; assumption).
       rewrite T in A. discriminate. }
     rewrite E. destruct reuse; reflexivity. }
@@ -808,30 +824,8 @@ Proof.
     rewrite Re in Ht2. rewrite andb_false_r in Ht2. discriminate.
 Qed.
 
-(* the classes outside the guard: the code accepts a directory with foreign content.
-   env_nolog: no --logfile, current directory somewhere else *)
+(* env_nolog: no --logfile, current directory somewhere else (used by the examples) *)
 Definition env_nolog : env := mkEnv false (mkP 9 0) (mkP 9 99).
-
-Lemma refuse_hidden_refuted :
-  exists entries, existsb (foreign env_nolog) entries = true /\
-                  prepare_output_directory env_nolog 1 false false entries = (Ok tt, 1, entries).
-Proof. exists [mkE 0 0 false false false false]. split; reflexivity. Qed.
-
-Lemma refuse_globname_refuted :
-  exists entries, existsb (foreign env_nolog) entries = true /\ forallb en_visible entries = true /\
-                  prepare_output_directory env_nolog 1 false true entries = (Ok tt, 1, entries).
-Proof. exists [mkE 0 0 true false false false]. split; [|split]; reflexivity. Qed.
-
-(* no --logfile and the current directory is a sub-directory of the output directory: it is taken for the
-   log file, so a directory whose only content is that (foreign, visible) sub-directory is accepted *)
-Lemma refuse_cwd_refuted :
-  exists v entries, lg_given v = false /\ existsb (foreign v) entries = true /\
-                    forallb en_visible entries = true /\
-                    prepare_output_directory v 1 false false entries = (Ok tt, 1, entries).
-Proof.
-  exists (mkEnv false (mkP 9 0) (mkP 0 7)), [mkE 0 7 true false true false].
-  split; [|split; [|split]]; reflexivity.
-Qed.
 
 (* the other kinds of path *)
 Lemma prepare_not_directory : forall v kind reuse dmeta entries,
@@ -1099,17 +1093,17 @@ Proof.
     exists pre. split; [reflexivity | exact Fp'].
 Qed.
 
-(* fresh run, existing directory with foreign content (inside the guard): whatever the plan, the run fails,
+(* fresh run, existing directory with foreign content: whatever the plan, the run fails,
    the directory listing, the JSON target and the log are untouched and no stage after
    prepare_output_directory happens *)
 Lemma run_antismash_foreign : forall pl v dmeta entries records results hk w w' r kd es,
-  dir_guard v dmeta entries = true -> existsb (foreign v) entries = true ->
+  existsb (foreign v) entries = true ->
   run_antismash pl v 1 false dmeta entries records results hk w = (w', r, kd, es) ->
   r <> Ok 0 /\ kd = 1 /\ es = entries /\ w_file w' = w_file w /\ w_log w' = w_log w /\
   exists pre, w_trace w' = w_trace w ++ pre /\ Forall (stage_ev 20 23 (cstate (w_file w))) pre.
 Proof.
-  intros pl v dmeta entries records results hk w w' r kd es G F H.
-  pose proof (refuse_fresh v dmeta entries G F) as EP.
+  intros pl v dmeta entries records results hk w w' r kd es F H.
+  pose proof (refuse_fresh v dmeta entries F) as EP.
   destruct (run_antismash_refused _ _ _ _ _ _ _ _ _ _ _ _ _ _ _ _ _ EP H) as [A [B [C [D E]]]].
   split; [exact C|]. split; [destruct D as [[D _]|[D _]]; exact D|].
   split; [destruct D as [[_ D]|[_ D]]; exact D|]. split; [exact A|]. split; [exact B | exact E].
